@@ -170,6 +170,11 @@ func c02RunStorageSync(co *caseOut, in c02Input) error {
 	} else {
 		close(raceDone)
 	}
+	var gate *c02Gate
+	if cfg.Race && cfg.Slow {
+		gate = c02NewGate(nil)
+		rec.gate = gate
+	}
 	var derr error
 	m := c02Try(func() {
 		derr = src.drive(bc, sizes, func(step int) error {
@@ -180,6 +185,12 @@ func c02RunStorageSync(co *caseOut, in c02Input) error {
 			return nil
 		})
 	})
+	if gate != nil {
+		gate.close()
+		if gate.err != "" {
+			return fmt.Errorf("%s", gate.err)
+		}
+	}
 	close(stopRace)
 	<-raceDone
 	if m != "" || derr != nil {
@@ -268,7 +279,7 @@ func c02RunStorageSync(co *caseOut, in c02Input) error {
 
 func c02GenStorageSync(r *rng, i int, race bool) c02Input {
 	backends := []string{"mem", "leveldb", "bolt"}
-	cfg := c02Cfg{Backend: backends[i%3], KOLS: i%2 == 0, Race: race}
+	cfg := c02Cfg{Backend: backends[i%3], KOLS: i%2 == 0, Race: race, Slow: race && i%2 == 1}
 	nb := 21 + r.intn(3)
 	h := c02GenHistory(r, c02Cfg{SRIH: true, P2PSX: true}, nb)
 	var ops []c02Op
